@@ -1188,6 +1188,29 @@ class _PrivateNameMangler(NodeTransformer):
         node.arg = self.mangle(node.arg)
         return node
 
+    def visit_keyword(self, node):
+        self.generic_visit(node)
+        node.arg = self.mangle(node.arg)
+        return node
+
+    def visit_ExceptHandler(self, node):
+        self.generic_visit(node)
+        node.name = self.mangle(node.name)
+        return node
+
+    def visit_FunctionDef(self, node):
+        self.generic_visit(node)
+        node.name = self.mangle(node.name)
+        return node
+
+    visit_AsyncFunctionDef = visit_FunctionDef
+
+    def visit_Global(self, node):
+        node.names = [self.mangle(name) for name in node.names]
+        return node
+
+    visit_Nonlocal = visit_Global
+
 
 def _standard_info():
     return {
@@ -1316,7 +1339,7 @@ def transform(fn, proceed, to_instrument=True, set_conformer=True):
     tree.decorator_list = []
     classname = _enclosing_class(fn)
     if classname is not None:
-        _PrivateNameMangler(classname).visit(tree)
+        _PrivateNameMangler(classname).generic_visit(tree)
     # Default values belong to the scope where the function was defined and
     # were evaluated when it was: do not evaluate them again (side effects,
     # names of the enclosing function), reuse the original objects below
